@@ -8,20 +8,30 @@ use std::path::{Path, PathBuf};
 use std::process::Command;
 use serde_json::{json, Value, Map};
 use crate::model::{XRule, sort_rules, bundle_order};
-use crate::decode::{decode_history, decode_table, rule_ticket, sources_ticket};
+use crate::decode::{decode_history, decode_table, rule_ticket};
 use crate::gen::Rng;
-use crate::sha256::{ticket_of, b62};
+use crate::sha256::{ticket_of, b62, sha256};
 use crate::gen::{gen_rules, profile};
 
 fn sq(s : &str) -> String { format!("'{}'", s.replace('\'', "'\\''")) }
+
+/*  A scenario may have one source that is a directory, always called "dl": ruler hashes the sorted list of the paths in it followed by
+    the hashes of the files.  Its "content" in the model is the label D[name=content,...] (names in sorted order). */
+pub const DIRLEAF : &str = "dl";
+fn cat_expr(p : &str) -> String
+{
+    if p == DIRLEAF { format!("{{ printf 'D['; sep=''; for f in {}/*; do printf '%s%s=' \"$sep\" \"${{f##*/}}\"; cat \"$f\"; sep=','; done; printf ']'; }}", DIRLEAF) }
+    else { format!("cat {}", sq(p)) }
+}
+fn test_expr(p : &str) -> String { if p == DIRLEAF { format!("test -d {}", DIRLEAF) } else { format!("test -f {}", sq(p)) } }
 
 /*  the shell line that implements rule r (index k among the current rules) */
 fn shell_line(r : &XRule, k : usize) -> String
 {
     let x = format!("\"$RULER_XLOG\"/R{}.$$", k);
     let mut s = String::new();
-    s.push_str(&format!("{{ printf 'B'; {} }} > {}.b; ", r.src.iter().map(|p| format!("printf '\\037'; cat {} 2>/dev/null || printf 'MISSING';", sq(p))).collect::<Vec<_>>().join(" "), x));
-    let mut work : Vec<String> = r.src.iter().map(|p| format!("test -f {}", sq(p))).collect();
+    s.push_str(&format!("{{ printf 'B'; {} }} > {}.b; ", r.src.iter().map(|p| format!("printf '\\037'; {{ {} && {}; }} 2>/dev/null || printf 'MISSING';", test_expr(p), cat_expr(p))).collect::<Vec<_>>().join(" "), x));
+    let mut work : Vec<String> = r.src.iter().map(|p| test_expr(p)).collect();
     /* like vcmd: nothing is written unless every target's directory is there */
     for t in r.tg.iter() { if let Some(i) = t.rfind('/') { work.push(format!("test -d {}", sq(&t[..i]))); } }
     if r.kind == "fail" { work.push("false".to_string()); }
@@ -32,11 +42,11 @@ fn shell_line(r : &XRule, k : usize) -> String
             if i + 1 == r.omit { continue; }
             let gen = match r.kind.as_str()
             {
-                "copy" => format!("cat {}", sq(&r.src[0])),
+                "copy" => cat_expr(&r.src[0]),
                 "const" => format!("printf '%s' {}", sq(&format!("K({})", r.id))),
-                "sel" => format!("{{ printf '%s' {}; cat {}; printf ']'; }}", sq(&format!("F({},{})[", r.id, i + 1)), sq(&r.src[i % r.src.len()])),
+                "sel" => format!("{{ printf '%s' {}; {}; printf ']'; }}", sq(&format!("F({},{})[", r.id, i + 1)), cat_expr(&r.src[i % r.src.len()])),
                 _ => format!("{{ printf '%s' {}; {} printf ']'; }}", sq(&format!("F({},{})[", r.id, i + 1)),
-                        r.src.iter().enumerate().map(|(j, p)| format!("{}cat {};", if j > 0 { "printf '%s' '|'; " } else { "" }, sq(p))).collect::<Vec<_>>().join(" ")),
+                        r.src.iter().enumerate().map(|(j, p)| format!("{}{};", if j > 0 { "printf '%s' '|'; " } else { "" }, cat_expr(p))).collect::<Vec<_>>().join(" ")),
             };
             /* a target in the rule's mask also depends on the undeclared input (the file .env, which is no source of any rule) */
             let gen = if r.mask.contains(&(i + 1)) { format!("{{ {}; printf '@'; cat .env; }}", gen) } else { gen };
@@ -111,18 +121,54 @@ impl RScn
         std::fs::metadata(p).ok().and_then(|m| m.modified().ok()).and_then(|t| t.duration_since(std::time::UNIX_EPOCH).ok()).map(|d| d.as_micros() as u64).unwrap_or(0)
     }
 
+    /*  the directory leaf: (ruler's hash of it, its label); both from the harness' own reading of the directory */
+    fn dir_leaf(&mut self) -> Option<([u8; 32], String)>
+    {
+        let d = self.dir.join(DIRLEAF);
+        if !d.is_dir() { return None; }
+        let mut names : Vec<String> = std::fs::read_dir(&d).ok()?.filter_map(|e| e.ok()).map(|e| e.file_name().to_string_lossy().to_string()).collect();
+        names.sort();
+        let paths : Vec<String> = names.iter().map(|n| format!("{}/{}", DIRLEAF, n)).collect();
+        let mut cat : Vec<u8> = paths.join("\n").into_bytes();
+        let mut parts = vec![];
+        for (n, p) in names.iter().zip(paths.iter())
+        {
+            let b = std::fs::read(self.dir.join(p)).ok()?;
+            cat.extend_from_slice(&sha256(&b));
+            parts.push(format!("{}={}", n, String::from_utf8_lossy(&b)));
+        }
+        let h = sha256(&cat);
+        let label = format!("D[{}]", parts.join(","));
+        self.dict.entry(b62(&h)).or_insert(label.clone());
+        Some((h, label))
+    }
+
+    /*  hash and label of a source as ruler sees it */
+    fn source_hash(&mut self, p : &str) -> Option<([u8; 32], String)>
+    {
+        if p == DIRLEAF { return self.dir_leaf(); }
+        let b = std::fs::read(self.dir.join(p)).ok()?;
+        Some((sha256(&b), String::from_utf8_lossy(&b).to_string()))
+    }
+
     fn state(&mut self) -> Value
     {
         /* contents of the sources of every rule name the sources-hashes ruler may have recorded */
         for r in self.rules.clone().iter()
         {
-            let cs : Vec<Option<String>> = r.src.iter().map(|s| std::fs::read(self.dir.join(s)).ok().map(|b| String::from_utf8_lossy(&b).to_string())).collect();
-            if cs.iter().all(|c| c.is_some()) { let v : Vec<String> = cs.into_iter().map(|c| c.unwrap()).collect(); self.shs.insert(sources_ticket(&v), format!("H[{}]", v.join("|"))); }
+            let hs : Vec<Option<([u8; 32], String)>> = r.src.iter().map(|s| self.source_hash(s)).collect();
+            if hs.iter().all(|c| c.is_some())
+            {
+                let v : Vec<([u8; 32], String)> = hs.into_iter().map(|c| c.unwrap()).collect();
+                let mut cat = vec![]; for (h, _) in v.iter() { cat.extend_from_slice(h); }
+                self.shs.insert(ticket_of(&cat), format!("H[{}]", v.iter().map(|(_, l)| l.clone()).collect::<Vec<_>>().join("|")));
+            }
         }
         let mut ws = Map::new(); let mut cache = Map::new(); let mut hist = Map::new(); let mut fstab = Map::new(); let mut htorn = vec![]; let mut other = vec![];
         for p in self.ord.clone().iter()
         {
             let path = self.dir.join(p);
+            if p == DIRLEAF { if let Some((_, l)) = self.dir_leaf() { ws.insert(p.clone(), json!({"c" : l, "m" : RScn::mtime(&path), "x" : false})); } continue; }
             if let Ok(b) = std::fs::read(&path)
             {
                 let l = self.learn(&b);
@@ -215,6 +261,21 @@ impl RScn
         self.out.push(json!({"a" : "mkdir", "d" : d, "ps" : ps}));
         pause();
     }
+    /*  a file inside the directory leaf gets new content (the directory's own modification time does not change) */
+    fn edit_in_dir(&mut self, name : &str, c : &str)
+    {
+        if std::fs::write(self.dir.join(DIRLEAF).join(name), c).is_err() { return; }
+        if let Some((_, l)) = self.dir_leaf() { self.out.push(json!({"a" : "edit", "p" : DIRLEAF, "c" : l})); }
+        pause();
+    }
+    /*  a file inside the directory leaf is deleted and created again with the same bytes: nothing changes as far as the
+        model is concerned (no event), but the order in which the file system lists the directory may */
+    fn recreate_in_dir(&mut self, name : &str)
+    {
+        let p = self.dir.join(DIRLEAF).join(name);
+        if let Ok(b) = std::fs::read(&p) { let _ = std::fs::remove_file(&p); let _ = std::fs::write(&p, b); }
+        pause();
+    }
     fn set_env(&mut self, v : &str)
     {
         std::fs::write(self.dir.join(".env"), v).unwrap();
@@ -224,7 +285,11 @@ impl RScn
     fn ws_labels(&mut self) -> Value
     {
         let mut m = Map::new();
-        for p in self.ord.clone().iter() { if let Ok(b) = std::fs::read(self.dir.join(p)) { let l = self.learn(&b); m.insert(p.clone(), Value::String(l)); } }
+        for p in self.ord.clone().iter()
+        {
+            if p == DIRLEAF { if let Some((_, l)) = self.dir_leaf() { m.insert(p.clone(), Value::String(l)); } continue; }
+            if let Ok(b) = std::fs::read(self.dir.join(p)) { let l = self.learn(&b); m.insert(p.clone(), Value::String(l)); }
+        }
         Value::Object(m)
     }
 
@@ -364,6 +429,9 @@ pub fn real_histories(bin : &str, base : &str, n : usize, seed : u64, prof : &st
         let mut pr = profile(if with_env { "env" } else { "core" }); pr.max_rules = 4; pr.max_steps = 8;
         let (mut rules, leaves) = gen_rules(&mut rng, &pr);
         for r in rules.iter_mut() { if r.kind == "kill" { r.kind = "fail".to_string(); } r.pk = false; if !with_env { r.mask.clear(); } r.layout = 0; r.flat = true; }
+        /* one scenario in three has a directory among the sources of some of its rules */
+        let with_dir = rng.chance(1, 3);
+        if with_dir { let mut any = false; for r in rules.iter_mut() { if !any || rng.chance(1, 3) { r.src.push(DIRLEAF.to_string()); r.src.sort(); any = true; } } }
         let targets : Vec<String> = rules.iter().flat_map(|r| r.tg.clone()).collect();
         let mut ord : BTreeSet<String> = BTreeSet::new();
         for r in rules.iter() { for p in r.tg.iter().chain(r.src.iter()) { ord.insert(p.clone()); } }
@@ -384,10 +452,11 @@ pub fn real_histories(bin : &str, base : &str, n : usize, seed : u64, prof : &st
         scn.out.push(json!({"a" : "reset", "sc" : format!("real{}.{}", seed, k), "ord" : scn.ord, "clock" : "distinct", "real" : true}));
         for s in [&mut scn, &mut tw] { s.set_env("e0"); s.out.pop(); }      /* the model starts with this undeclared input */
         for s in [&mut scn, &mut tw] { s.set_rules(&rules); }
+        if with_dir { for s in [&mut scn, &mut tw] { let _ = std::fs::create_dir_all(s.dir.join(DIRLEAF)); s.edit_in_dir("a", "S0"); s.edit_in_dir("b", "S0"); } }
         for l in &leaves { for s in [&mut scn, &mut tw] { s.edit(l, "S0"); } }
         if rng.chance(1, 2) { for s in [&mut scn, &mut tw] { s.edit("zz", "B0"); } }
         let steps = 4 + rng.below(7);
-        let mut invoke = |scn : &mut RScn, tw : &mut RScn, rng : &mut Rng, is_build : bool, g : &str|
+        let invoke = |scn : &mut RScn, tw : &mut RScn, rng : &mut Rng, is_build : bool, g : &str|
         {
             let sink = if rng.chance(1, 8) { 1 } else { 0 };
             let t = tw.invoke(is_build, g, None, 0);
@@ -395,8 +464,10 @@ pub fn real_histories(bin : &str, base : &str, n : usize, seed : u64, prof : &st
         };
         for _ in 0..steps
         {
-            match rng.below(14)
+            match rng.below(if with_dir { 17 } else { 14 })
             {
+                14 | 15 => { let n = ["a", "b"][rng.below(2)]; let c = format!("S{}", rng.below(3)); for s in [&mut scn, &mut tw] { s.edit_in_dir(n, &c); } },
+                16 => { let n = ["a", "b"][rng.below(2)]; for s in [&mut scn, &mut tw] { s.recreate_in_dir(n); } },
                 0..=3 => { let g = match rng.below(10) { 0..=5 => "".to_string(), 6 => "nosuch".to_string(), _ => targets[rng.below(targets.len())].clone() }; invoke(&mut scn, &mut tw, &mut rng, true, &g); },
                 4 | 5 => { let g = if rng.chance(1, 2) { "".to_string() } else { targets[rng.below(targets.len())].clone() }; invoke(&mut scn, &mut tw, &mut rng, false, &g); },
                 6 | 7 => { let l = &leaves[rng.below(leaves.len())]; let c = format!("S{}", rng.below(3)); for s in [&mut scn, &mut tw] { s.edit(l, &c); } },
